@@ -343,7 +343,9 @@ where
             assert_eq!(chain.pop(), Some(key));
         });
         
+        let mut computed = false;
         let res = self.storage.cache.get_or_compute(key, || {
+            computed = true;
             match self.resolve(key).and_then(|p| T::from_primitive(p, self)) {
                 Ok(obj) => Ok(AnySync::new(Shared::new(obj))),
                 Err(e) => {
@@ -363,7 +365,12 @@ where
                     }
                 }
             }
-            Err(e) => Err(PdfError::Shared { source: e.clone()}),
+            Err(e) if computed => Err(PdfError::Shared { source: e.clone()}),
+            // an error left in the cache by an earlier load, possibly as a different type: decide again for T
+            Err(_) => {
+                let p = self.resolve(key)?;
+                Ok(RcRef::new(key, T::from_primitive(p, self)?.into()))
+            }
         }
     }
     fn options(&self) -> &ParseOptions {
